@@ -443,6 +443,7 @@ def main(check: PropertyCheck, argv: list[str]) -> int:
     elif diffs or problems:
         # ---- 4. failing-input search
         found = None
+        check.in_search = True      # generators may focus on what the property's oracle can judge
         for extra_seed in range(1, check.SEARCH_FACTOR + 1):
             rng2 = random.Random(f"{check.ID}-{seed}-search-{extra_seed}")
             batch = list(check.generate(rng2, n, tier))
